@@ -22,8 +22,9 @@ KB == << Fact(Cx("q", <<a>>)), Fact(Cx("q", <<b>>)), Fact(Cx("r", <<b>>)), Fact(
          Clause(Cx("s", <<X, Y>>), AndG(<<Call(Cx("q", <<X>>)), Call(Cx("r", <<Y>>)), Call(Cx("q", <<X>>))>>)),
          Clause(Cx("n", <<X>>), AndG(<<Call(Cx("r", <<X>>)), NotG(Call(Cx("q", <<X>>)))>>)) >>
 
-Queries == {Cx("q", <<Z>>), Cx("p", <<Z>>), Cx("s", <<Z, Y>>), Cx("n", <<Z>>), Cx("q", <<c>>), Cx("zz", <<Z>>)}
-QueriesQ == {Cx("q", <<Z>>), Cx("p", <<Z>>), Cx("n", <<Z>>), Cx("q", <<c>>)}
+(* (q(a) and p(b): ground queries which HAVE an answer; q(c): a ground query without one) *)
+Queries == {Cx("q", <<Z>>), Cx("p", <<Z>>), Cx("s", <<Z, Y>>), Cx("n", <<Z>>), Cx("q", <<c>>), Cx("zz", <<Z>>), Cx("q", <<a>>), Cx("p", <<b>>)}
+QueriesQ == {Cx("q", <<Z>>), Cx("p", <<Z>>), Cx("n", <<Z>>), Cx("q", <<c>>), Cx("q", <<a>>)}
 Nx == [mode |-> "next", fire |-> 0]
 Sv(k) == [mode |-> "solve", fire |-> k]
 Al(k) == [mode |-> "all", fire |-> k]
